@@ -15,6 +15,7 @@ RULE = ("Label vectors with every class 0..K-1 present (K=1..8 and 9..24, N=K..2
         "1-(1/2K)sum(FP_c/(N-N_c)+FN_c/N_c) within 1e-12, in [0,1], ==1 iff all correct; confusion matrix == pair counts; per-label accuracy == "
         "recall; purity vs exact rational, in (0,1], ==1 iff every predicted group is pure; normalize vs (x-mean)/std per non-constant column (column scales 1e-12..1e12). "
         "Non-trivial: K>=3, >=1 error, unequal class sizes; distinct = case hash.")
+RULE += (' Per run: label vectors of 16384..65537 (thorough ..262145) entries and two with 4100/4300 classes; 20% of the normalisation cases are integer-typed tables (int64/int32/int16/uint8), 8% tables that are almost standardised already.')
 ASSUMPTIONS = [
     "domain of the statement: every class 0..K-1 occurs among the true labels, predictions within 0..K-1, equal lengths",
     "normalize is judged with a tolerance 1e-9 + 32*eps*|mean|/std (the conditioning of the subtraction); columns where that exceeds 0.25 are skipped",
